@@ -1,7 +1,7 @@
 ------------------------------ MODULE MC_C17 ------------------------------
 (***************************************************************************)
 (* Bounded model for C17 (swizzles and constructors place exactly the      *)
-(* named components).  One state machine with three kinds of states:       *)
+(* named components).  One state machine with four kinds of states:        *)
 (*                                                                         *)
 (*  swz  - every index pattern (1..4 letters) over every source length     *)
 (*         1..4 and every letter set starts in phase "fresh" holding the   *)
